@@ -13,6 +13,8 @@ Tie T: `Bond.order`, `_node_match`, `_edge_match` are tabulated from the code in
 and proved equal to the model predicates on the whole table.
 Oracle: an independent Python reference (level-set BFS, bridge test by edge deletion, brute-force embedding search)
 judges the implementation alone and turns any disagreement into a concrete failing input.
+Sessions (Model/GraphSession.v): the same queries asked of ONE live object before and after in-place edits of host and
+pattern (count-preserving and not) -- "any molecular graph" is the graph the object holds now, whatever was asked before.
 """
 import os, sys, json, itertools, math
 from fractions import Fraction
@@ -58,6 +60,11 @@ def cq_bres(x, f):
 def observe_graph(ml, n, bonds, btypes=None, queries=None, cls=None, elements=None):
     """Runs every requested query on the implementation; returns list of (kind, args, observed)."""
     m = build(ml, n, bonds, btypes=btypes, cls=cls, elements=elements)
+    return observe_on(m, queries)
+
+
+def observe_on(m, queries):
+    """the queries answered by the object m as it is now"""
     idx = {id(a): i for i, a in enumerate(m.atoms)}
     bidx = {id(b): i for i, b in enumerate(m.bonds)}
     out = []
@@ -677,6 +684,457 @@ def match_part(ctx, rep):
     return bad, metas, found
 
 
+# ================================================================== sessions: query -> edit in place -> query again
+# "On any molecular graph" means the graph the object holds NOW.  A session keeps ONE host object (Molecule /
+# ConformerEnsemble / Connectivity) and a few pattern objects alive, asks every query of the property, edits host or
+# pattern IN PLACE -- edits that keep (n_atoms, n_bonds): element / isotope / stereo of an atom, type / stereo / label /
+# f_order of a bond, del_bond + connect (a substituent moved), del_atom + add atom + connect (an atom replaced); and
+# edits that do not: connect, del_bond, del_atom, add atom -- and asks again on the SAME objects.  Every answer is judged
+# against the atoms and bonds read back from the object at that moment, and the whole history is replayed in Coq
+# (Model/GraphSession.v: check_scase) on the edit model.
+SHEADER = ("From Coq Require Import List NArith QArith.\nImport ListNotations.\n"
+           "From Molli Require Import Model.Graph Model.Match Model.GraphSession.\nOpen Scope nat_scope.\n")
+S_EL = [6, 6, 6, 7, 8, 1, 16, 17, 35, 9, 0]
+S_HBT = M_BT + [99, 5]
+S_F = [0.25, 1.75, 2.5]
+PRESERVING = ("el", "atomattr", "bt", "bondattr", "move", "swap")
+H_KINDS = ["el"] * 4 + ["bt"] * 3 + ["move"] * 4 + ["swap"] * 2 + ["atomattr", "bondattr", "connect", "connect", "del_bond",
+                                                                 "del_bond", "del_atom", "add_atom", "none"]
+P_KINDS = ["el"] * 4 + ["bt"] * 3 + ["move"] * 2 + ["connect", "del_bond", "add_atom"]
+
+
+def ref_order(bt, f):
+    """bond order by type as documented for BondType (FractionalOrder carries its own); NOT read from the object"""
+    if bt == 99:
+        return Fraction(f)
+    return Fraction({0: 0, 1: 1, 2: 2, 3: 3, 4: 4, 5: 5, 6: 6, 20: Fraction(3, 2), 101: 0, 10: 0, 98: 0, 11: 0}.get(bt, 1))
+
+
+def st_norm(state):
+    return [tuple(a) for a in state[0]], [tuple(b) for b in state[1]]
+
+
+def st_apply(state, e):
+    """the edit on the tracked state -- written from the documentation of the editing calls, independent of molli"""
+    atoms, bonds = list(state[0]), list(state[1])
+    k = e[0]
+    if k == "connect":
+        bonds.append(tuple(e[1:]))
+    elif k == "del_bond":
+        del bonds[e[1]]
+    elif k == "add_atom":
+        atoms.append(tuple(e[1]))
+    elif k == "del_atom":
+        a = e[1]
+        del atoms[a]
+        sh = lambda x: x - 1 if x > a else x
+        bonds = [(sh(b[0]), sh(b[1])) + tuple(b[2:]) for b in bonds if a not in (b[0], b[1])]
+    elif k == "set_atom":
+        atoms[e[1]] = tuple(e[2])
+    elif k == "set_bond":
+        b = bonds[e[1]]
+        bonds[e[1]] = (b[0], b[1]) + tuple(e[2:])
+    else:
+        raise ValueError(k)
+    return atoms, bonds
+
+
+def real_atom(ml, t):
+    return ml.Atom(ml.Element(t[0]), isotope=t[1], stereo=ml.chem.AtomStereo(t[2]), atype=ml.chem.AtomType(t[3]))
+
+
+def real_apply(ml, m, cls, e):
+    """the same edit on the live object, through the public editing calls / attribute assignment"""
+    k = e[0]
+    if k == "connect":
+        _, x, y, bt, st, lab, f = e
+        m.connect(x, y, btype=ml.BondType(bt), stereo=ml.chem.BondStereo(st), label=lab, f_order=float(f))
+    elif k == "del_bond":
+        m.del_bond(m.bonds[e[1]])
+    elif k == "add_atom":
+        if cls == "connectivity":
+            m.append_atom(real_atom(ml, e[1]))
+        else:
+            m.add_atom(real_atom(ml, e[1]), [0.0, 0.0, 0.0])
+    elif k == "del_atom":
+        m.del_atom(e[1])
+    elif k == "set_atom":
+        a = m.atoms[e[1]]
+        el, iso, st, at = e[2]
+        a.element = ml.Element(el)
+        a.isotope = iso
+        a.stereo = ml.chem.AtomStereo(st)
+        a.atype = ml.chem.AtomType(at)
+    elif k == "set_bond":
+        b = m.bonds[e[1]]
+        _, _, bt, st, lab, f = e
+        b.btype = ml.BondType(bt)
+        b.stereo = ml.chem.BondStereo(st)
+        b.label = lab
+        b.f_order = float(f)
+    else:
+        raise ValueError(k)
+
+
+def build_state(ml, state, cls):
+    import numpy as np
+    atoms, bonds = state
+    m = ml.Molecule([ml.Element(a[0]) for a in atoms], coords=np.zeros((len(atoms), 3)))
+    for a, (e, iso, st, at) in zip(m.atoms, atoms):
+        a.isotope = iso
+        a.stereo = ml.chem.AtomStereo(st)
+        a.atype = ml.chem.AtomType(at)
+    for (x, y, bt, st, lab, f) in bonds:
+        m.connect(x, y, btype=ml.BondType(bt), stereo=ml.chem.BondStereo(st), label=lab, f_order=float(f))
+    if cls == "ensemble":
+        m = ml.ConformerEnsemble(m, n_conformers=1)
+    elif cls == "connectivity":
+        m = ml.Connectivity(m)
+    return m
+
+
+def readback(m):
+    """atoms and bonds of the object as it is now, in the tracked-state format"""
+    idx = {id(a): i for i, a in enumerate(m.atoms)}
+    atoms = [(int(a.element.z), a.isotope, int(a.stereo), int(a.atype)) for a in m.atoms]
+    bonds = [(idx.get(id(b.a1), -1), idx.get(id(b.a2), -1), int(b.btype), int(b.stereo), b.label, float(b.f_order)) for b in m.bonds]
+    return atoms, bonds
+
+
+# ---- planning
+def plan_edit(rng, state, kind, can_resize, els, bts, nmax):
+    """-> (list of edits, touched atom indices (in the state AFTER the edits)) or None when the kind is impossible here"""
+    atoms, bonds = state
+    n = len(atoms)
+    bonded = {frozenset((b[0], b[1])) for b in bonds}
+    free = lambda bd, nn: [(x, y) for x in range(nn) for y in range(x + 1, nn) if frozenset((x, y)) not in bd]
+    orient = lambda x, y: (y, x) if rng.random() < 0.5 else (x, y)
+    newbond = lambda x, y: ("connect",) + orient(x, y) + (rng.choice(bts), rng.choice([0, 0, 0, 1, 10]), rng.choice([None, None, "a"]), 1.0)
+    if kind == "none":
+        return [], []
+    if kind == "el":
+        i = rng.randrange(n)
+        cand = [e for e in els if e != atoms[i][0]]
+        if not cand:
+            return None
+        return [("set_atom", i, (rng.choice(cand),) + tuple(atoms[i][1:]))], [i]
+    if kind == "atomattr":
+        i = rng.randrange(n)
+        e, iso, st, at = atoms[i]
+        iso2 = rng.choice([x for x in (None, 2, 13) if x != iso])
+        st2 = rng.choice([0, 1, 10, 11]) if rng.random() < 0.5 else st
+        return [("set_atom", i, (e, iso2, st2, rng.choice([at, 0, 1, 2])))], [i]
+    if kind in ("bt", "bondattr"):
+        if not bonds:
+            return None
+        i = rng.randrange(len(bonds))
+        x, y, bt, st, lab, f = bonds[i]
+        if kind == "bt":
+            bt = rng.choice([b for b in bts if b != bt])
+            f = rng.choice(S_F) if bt == 99 else 1.0
+        else:
+            st = rng.choice([s for s in (0, 1, 10) if s != st])
+            lab = rng.choice([None, "a", "b"])
+            f = rng.choice(S_F) if bt == 99 else f
+        return [("set_bond", i, bt, st, lab, f)], [x, y]
+    if kind == "move":
+        if not bonds:
+            return None
+        i = rng.randrange(len(bonds))
+        x, y = bonds[i][0], bonds[i][1]
+        cand = free(bonded - {frozenset((x, y))}, n)
+        if not cand:
+            return None
+        u, v = rng.choice(cand)
+        return [("del_bond", i), newbond(u, v)], [x, y, u, v]
+    if kind == "connect":
+        cand = free(bonded, n)
+        if not cand:
+            return None
+        u, v = rng.choice(cand)
+        return [newbond(u, v)], [u, v]
+    if kind == "del_bond":
+        if not bonds:
+            return None
+        i = rng.randrange(len(bonds))
+        return [("del_bond", i)], [bonds[i][0], bonds[i][1]]
+    if kind == "del_atom":
+        if not can_resize or n < 3:
+            return None
+        a = rng.randrange(n)
+        nb = [b[1] if b[0] == a else b[0] for b in bonds if a in (b[0], b[1])]
+        return [("del_atom", a)], [x - 1 if x > a else x for x in nb]
+    if kind == "add_atom":
+        if not can_resize or n >= nmax + 1:
+            return None
+        at = (rng.choice([e for e in els]), None, 0, 1)
+        eds = [("add_atom", at)]
+        if rng.random() < 0.75:
+            eds.append(newbond(rng.randrange(n), n))
+        return eds, [n]
+    if kind == "swap":          # an atom replaced by another one with as many bonds: both counts come back
+        if not can_resize or n < 3:
+            return None
+        a = rng.randrange(n)
+        d = sum(1 for b in bonds if a in (b[0], b[1]))
+        tg = rng.sample(range(n - 1), min(d, n - 1))
+        eds = [("del_atom", a), ("add_atom", (rng.choice(els), None, 0, 1))] + [newbond(t, n - 1) for t in tg]
+        return eds, [n - 1] + tg
+    raise ValueError(kind)
+
+
+def session_queries(rng, state, touched):
+    atoms, bonds = state
+    n = len(atoms)
+    pairs = [(b[0], b[1]) for b in bonds]
+    starts = sorted({a for a in touched[:3] if 0 <= a < n} | set(rng.sample(range(n), min(2, n))))
+    qs = full_queries(n, pairs, starts=starts, dirs="bonded", adjacency=False, rng=rng)
+    for a in starts:
+        qs += [("bonds", a), ("conn", a), ("nb", a), ("val", a)]
+    return qs
+
+
+def plan_session(rng, cls, nmax=8, rounds=None):
+    ha, hb = random_host(rng, nmax)
+    host0 = (ha, [b + (rng.choice(S_F) if b[2] == 99 else 1.0,) for b in hb])
+    rounds = rounds or rng.randint(3, 5)
+    pcls = [rng.choice([None, "connectivity"]) for _ in range(3)]
+    targets = [("host" if rng.random() < 0.68 else rng.randrange(3)) for _ in range(rounds)]
+    # host history first: the patterns are cut out of the host as it is at the start, half way and at the end, so
+    # that an answer computed on an out-of-date graph is wrong in both directions (invalid and missed embeddings)
+    hstates, hrounds = [host0], []
+    for tg in targets:
+        cur = hstates[-1]
+        if tg != "host":
+            hrounds.append(None)
+            hstates.append(cur)
+            continue
+        kind = rng.choice(H_KINDS)
+        pl = plan_edit(rng, cur, kind, cls != "ensemble", S_EL, S_HBT, nmax)
+        if pl is None:
+            kind = "el"
+            pl = plan_edit(rng, cur, kind, False, S_EL, S_HBT, nmax)
+        for e in pl[0]:
+            cur = st_apply(cur, e)
+        hrounds.append((kind, pl[0], pl[1]))
+        hstates.append(cur)
+    strip = lambda st: (st[0], [b[:5] for b in st[1]])
+    pats = []
+    for src in (hstates[0], hstates[-1], hstates[len(hstates) // 2]):
+        (pa, pb), _style = random_pattern(rng, strip(src))
+        pats.append((pa, [b + (1.0,) for b in pb]))
+    pstate = list(pats)
+    steps, kinds = [], []
+
+    def battery(hstate, touched, r):
+        steps.append(("query", session_queries(rng, hstate, touched)))
+        for k in range(3):
+            steps.append(("match", k, ["idx", "match"][(r + k) % 2]))
+
+    battery(host0, [], 0)
+    for r, tg in enumerate(targets):
+        if tg == "host":
+            kind, eds, touched = hrounds[r]
+            steps.extend(("host", e) for e in eds)
+            kinds.append(("host", kind))
+        else:
+            cur = pstate[tg]
+            hel = sorted({a[0] for a in hstates[r + 1][0]} | {0})
+            kind = rng.choice(P_KINDS)
+            pl = plan_edit(rng, cur, kind, True, hel, M_PBT, 5)
+            if pl is None:
+                kind = "el"
+                pl = plan_edit(rng, cur, kind, True, hel + [9], M_PBT, 5)
+            for e in pl[0]:
+                cur = st_apply(cur, e)
+            pstate[tg] = cur
+            steps.extend(("pat", tg, e) for e in pl[0])
+            touched = []
+            kinds.append(("pattern", kind))
+        battery(hstates[r + 1], touched, r + 1)
+    return {"kind": "session", "cls": cls, "pcls": pcls, "host": host0, "pats": pats, "steps": steps}, kinds
+
+
+def fixed_sessions():
+    """halogen exchange, a hydroxyl moved, ring closure / opening, a bond order raised, an edited pattern -- on each class"""
+    C, O, CL, X = (6, None, 0, 1), (8, None, 0, 1), (17, None, 0, 1), (0, None, 0, 1)
+    sb = lambda x, y, bt=1: (x, y, bt, 0, None, 1.0)
+    host = ([CL, C, C, C, C, O], [sb(0, 1), sb(1, 2), sb(2, 3), sb(3, 4), sb(4, 5)])
+    pats = [([C, CL], [sb(0, 1)]), ([C, C, O], [sb(0, 1), sb(1, 2)]), ([C, C, C, X], [sb(0, 1), sb(0, 2), sb(0, 3)])]
+    qs = [q for a in (1, 2, 4, 5) for q in (("bfsd", a, None), ("bfs", a, None), ("conn", a), ("bonds", a), ("nb", a), ("val", a))]
+    qs += [("bfsd", 2, 1), ("bfs", 2, 3)] + [("ring", i) for i in range(5)]
+    bat = lambda r: [("query", list(qs))] + [("match", k, ["idx", "match"][(r + k) % 2]) for k in range(3)]
+    steps = bat(0)
+    steps += [("host", ("set_atom", 0, (35, None, 0, 1)))] + bat(1)                                  # Cl -> Br
+    steps += [("host", ("del_bond", 4)), ("host", ("connect", 2, 5, 1, 0, None, 1.0))] + bat(2)       # OH moved C4 -> C2
+    steps += [("host", ("connect", 1, 4, 1, 0, None, 1.0))] + bat(3)                                  # ring closure
+    steps += [("host", ("del_bond", 2))] + bat(4)                                                     # ring opened at C2-C3
+    steps += [("host", ("set_bond", 3, 2, 0, None, 1.0))] + bat(5)                                    # C2=O
+    steps += [("pat", 1, ("set_atom", 2, (35, None, 0, 1)))] + bat(6)                                 # pattern C-C-O -> C-C-Br
+    steps += [("pat", 0, ("set_bond", 0, 2, 0, None, 1.0))] + bat(7)                                  # pattern C-Cl -> C=Cl
+    for cls in (None, "ensemble", "connectivity"):
+        yield ({"kind": "session", "cls": cls, "pcls": [None, "connectivity", None], "host": host, "pats": pats, "steps": list(steps)},
+               [("host", "el"), ("host", "move"), ("host", "connect"), ("host", "del_bond"), ("host", "bt"), ("pattern", "el"), ("pattern", "bt")])
+
+
+# ---- running one session on the implementation, judging every answer on the object's own atoms/bonds at that moment
+def run_session(ml, sess, upto=None):
+    """-> (records, violations, aborted).  records[i] = observation of step i (None for an edit);
+    violations = [(signature, text, index of the step)]"""
+    cls, pcls = sess["cls"], sess["pcls"]
+    H = build_state(ml, st_norm(sess["host"]), cls)
+    Ps = [build_state(ml, st_norm(p), pc) for p, pc in zip(sess["pats"], pcls)]
+    recs, viol = [], []
+    n_edits, last = 0, "none"
+    for i, step in enumerate(sess["steps"] if upto is None else sess["steps"][:upto]):
+        step = tuple(step)
+        if step[0] in ("host", "pat"):
+            e = tuple(step[-1])
+            e = e[:2] + (tuple(e[2]),) if e[0] == "set_atom" else (e[0], tuple(e[1])) if e[0] == "add_atom" else e
+            try:
+                if step[0] == "host":
+                    real_apply(ml, H, cls, e)
+                else:
+                    real_apply(ml, Ps[step[1]], pcls[step[1]], e)
+            except Exception as ex:  # noqa -- the editing calls are C05's subject; the session stops here
+                return recs, viol, f"step {i} {step[0]} {e[0]}: {type(ex).__name__}: {ex}"
+            n_edits += 1
+            last = ("pattern " if step[0] == "pat" else "") + e[0]
+            recs.append(None)
+            continue
+        now = readback(H)
+        pre = "C15:" if n_edits == 0 else "C15:after-edit:"
+        ctx_txt = (f"{cls or 'molecule'} object after {n_edits} in-place edit(s) (last: {last}), now atoms={[a[0] for a in now[0]]} "
+                   f"bonds={[(b[0], b[1], b[2]) for b in now[1]]}")
+        if step[0] == "query":
+            obs = observe_on(H, [tuple(q) for q in step[1]])[0]
+            n = len(now[0])
+            pairs = [(b[0], b[1]) for b in now[1]]
+            orders = [ref_order(b[2], b[5]) for b in now[1]]
+            for q, r in obs:
+                for sig, text in judge_query(n, pairs, orders, q, r):
+                    fresh = observe_on(build_state(ml, now, cls), [q])[0][0][1]
+                    viol.append((pre + sig[4:], f"{ctx_txt}: {text}" + (f"; a freshly built object with these atoms and bonds answers {fresh}"
+                                                                     if n_edits else ""), i))
+            recs.append(obs)
+        else:
+            _, k, how = step
+            P = Ps[k]
+            pnow = readback(P)
+            try:
+                if how == "match":
+                    idx = {id(a): j for j, a in enumerate(H.atoms)}
+                    obs = [tuple(idx[id(mp[a])] for a in P.atoms) for mp in H.match(P)]
+                else:
+                    obs = [tuple(int(j) for j in f) for f in H.get_substr_indices(P)]
+            except Exception as ex:  # noqa
+                obs = "exc:" + type(ex).__name__
+            strip = lambda st: (st[0], [b[:5] for b in st[1]])
+            for sig, text in judge_match(strip(now), strip(pnow), obs):
+                viol.append((pre + sig[4:], f"{ctx_txt}; pattern {k} now atoms={[a[0] for a in pnow[0]]} bonds={[(b[0], b[1], b[2]) for b in pnow[1]]} "
+                                            f"via {'match' if how == 'match' else 'get_substr_indices'}: {text}", i))
+            recs.append(obs)
+    return recs, viol, None
+
+
+# ---- Coq terms
+def matom_term(a):
+    e, i, s, t = a
+    return f"mk_matom {e} " + ("None" if i is None else f"(Some {i}%N)") + f" {s} {t}"
+
+
+def mbond_term(b):
+    x, y, bt, st, lab = b[:5]
+    return f"mk_mbond {x} {y} {bt} {st} " + ("None" if lab is None else f"(Some {LAB_CODE[lab]}%N)")
+
+
+def sstate_term(st):
+    return ("(mk_sstate " + cq_list(matom_term(a) for a in st[0]) + " "
+            + cq_list(f"({mbond_term(b)}, {cq_Q(Fraction(b[5]))})" for b in st[1]) + ")")
+
+
+def edit_term(e):
+    k = e[0]
+    if k == "connect":
+        return f"(EConnect ({mbond_term(e[1:6])}) {cq_Q(Fraction(e[6]))})"
+    if k == "del_bond":
+        return f"(EDelBond {e[1]})"
+    if k == "add_atom":
+        return f"(EAddAtom ({matom_term(e[1])}))"
+    if k == "del_atom":
+        return f"(EDelAtom {e[1]})"
+    if k == "set_atom":
+        return f"(ESetAtom {e[1]} ({matom_term(e[2])}))"
+    if k == "set_bond":
+        _, i, bt, st, lab, f = e
+        return f"(ESetBond {i} {bt} {st} " + ("None" if lab is None else f"(Some {LAB_CODE[lab]}%N)") + f" {cq_Q(Fraction(f))})"
+    raise ValueError(k)
+
+
+def scase_term(sess, recs):
+    terms = []
+    for step, obs in zip(sess["steps"], recs):
+        if step[0] == "host":
+            terms.append("SHost " + edit_term(step[1]))
+        elif step[0] == "pat":
+            terms.append(f"SPat {step[1]} " + edit_term(step[2]))
+        elif step[0] == "query":
+            terms.append("SQuery " + cq_list(query_term(q, r) for q, r in obs))
+        else:
+            terms.append(f"SMatch {step[1]} " + (cq_list(cq_list(map(str, f)) for f in obs) if not isinstance(obs, str) else "[[99999]]"))
+    return ("mk_scase " + sstate_term(sess["host"]) + " " + cq_list(sstate_term(p) for p in sess["pats"]) + " " + cq_list(terms))
+
+
+def jsonable(sess, upto):
+    d = dict(sess)
+    d["steps"] = [list(s) for s in sess["steps"][:upto]]
+    return json.loads(json.dumps(d))
+
+
+def session_part(ctx, rep):
+    import molli as ml
+    rng = ctx.rng
+    cases, metas, found = [], [], []
+    n_rand = 600 if ctx.thorough else 36
+    plans = [plan_session(rng, [None, "ensemble", "connectivity"][k % 3]) for k in range(n_rand)] + list(fixed_sessions())
+    for sid, (sess, kinds) in enumerate(plans):
+        recs, viol, aborted = run_session(ml, sess)
+        if aborted:
+            rep.count("session:aborted-by-an-editing-call")
+            rep.extra.setdefault("session_aborted", []).append(aborted)
+            sess = dict(sess, steps=sess["steps"][:len(recs)])
+        cases.append(scase_term(sess, recs))
+        metas.append(sess)
+        rep.count("session:host-class:" + (sess["cls"] or "molecule"))
+        for tg, kind in kinds:
+            rep.count(f"session:edit:{tg}:{kind}")
+            rep.count("session:round:" + ("no-edit" if kind == "none" else "count-preserving" if kind in PRESERVING else "count-changing"))
+        n_edits, prev = 0, {}
+        for i, (step, obs) in enumerate(zip(sess["steps"], recs)):
+            if obs is None:
+                n_edits += 1
+                continue
+            when = "fresh" if n_edits == 0 else "after-edit"
+            if step[0] == "query":
+                for q, r in obs:
+                    rep.case(key=f"session:{sid}:{i}:{q}")
+                    rep.count(f"session:query:{when}:{q[0]}" + ("" if len(q) < 3 or q[2] is None else ":dir"))
+            else:
+                rep.case(key=f"session:{sid}:{i}:match{step[1]}",
+                         sample=(f"session {sess['cls'] or 'molecule'} step {i} after {n_edits} edits: pattern {step[1]} -> {obs}"
+                                 if n_edits >= 3 and obs and not isinstance(obs, str) and sid % 7 == 0 else None))
+                rep.count(f"session:match:{when}:" + ("idx" if step[2] == "idx" else "match"))
+                if step[1] in prev:
+                    rep.count("session:match:answer-" + ("changed" if sorted(prev[step[1]]) != sorted(obs) else "same") + "-since-last-asked")
+                prev[step[1]] = obs if not isinstance(obs, str) else []
+        for sig, text, i in viol:
+            found.append(sig)
+            rep.violate(sig, text, jsonable(sess, i + 1))
+    shard = max(4, math.ceil(len(cases) / 16))
+    bad = vlib.run_shards(ctx, rep, "session", SHEADER, "check_scase", cases, shard=shard, timeout=900, case_type="scase")
+    return bad, metas, found
+
+
 KNOWN_SIG = "C15:match:raises-NotImplementedError"
 UNSUPPORTED_PATTERN_BT = [4, 5, 6, 10, 98, 99, 100, 101]
 
@@ -769,7 +1227,11 @@ def run(ctx, rep):
                 "with random elements/bond types, as Molecule, ConformerEnsemble and Connectivity; a stream with parallel "
                 "bonds and self loops (model fidelity only); random typed host/pattern pairs for matching (induced, "
                 "bond-dropped, disconnected, foreign, constrained patterns) through Molecule.get_substr_indices, "
-                "ConformerEnsemble.get_substr_indices and Connectivity.match.  One evaluation = one query answered by the "
+                "ConformerEnsemble.get_substr_indices and Connectivity.match; SESSIONS on one live host object (each class) "
+                "and three live pattern objects: every query asked, then host or pattern edited in place (count-preserving: "
+                "element/isotope/stereo, bond type/stereo/label/f_order, del_bond+connect, del_atom+add+connect; "
+                "count-changing: connect, del_bond, del_atom, add atom), then every query asked again on the same objects, "
+                "3-5 rounds, judged against the atoms/bonds read back from the object at that moment.  One evaluation = one query answered by the "
                 "implementation and compared with the model inside Coq; non-trivial = the graph has a bond / the pattern "
                 "has an atom; distinct by (graph, query) / (host, pattern)")
     rep.trusted += ["harness/c15.py: drives molli.Connectivity, canonicalises atoms/bonds to list positions, emits Coq case terms",
@@ -790,9 +1252,10 @@ def run(ctx, rep):
     rep.count("table:bond_order_rows", len(tabs["orders"]))
     bad_g, metas_g, found_g = graph_part(ctx, rep)
     bad_m, metas_m, found_m = match_part(ctx, rep)
+    bad_s, metas_s, found_s = session_part(ctx, rep)
     rep.exhaustive = True
-    any_found = bool(found_g or found_m)
-    if bad_g is None or bad_m is None:
+    any_found = bool(found_g or found_m or found_s)
+    if bad_g is None or bad_m is None or bad_s is None:
         vlib.broken_obligation(rep, "corr_shards", "a correspondence shard did not compile: "
                                + json.dumps(rep.extra.get("shard_errors", ""))[-1500:], any_found)
     failed = lambda pre: any(n.startswith(pre) and not ok_ for n, ok_ in rep.obligations)
@@ -808,6 +1271,11 @@ def run(ctx, rep):
         rep.extra["match_mismatch_cases"] = [dict(zip(("host", "pattern", "style", "how"), metas_m[i])) for i in bad_m[:10]]
         vlib.broken_obligation(rep, "corr_match", f"reference enumerator and molli disagree on {len(bad_m)} matching case(s), first: "
                                + json.dumps(rep.extra["match_mismatch_cases"][:1]), any_found)
+    if (bad_s or failed("corr_session")) and bad_s is not None:
+        bad_s = bad_s or []
+        rep.extra["session_mismatch_cases"] = [jsonable(metas_s[i], None) for i in bad_s[:3]]
+        vlib.broken_obligation(rep, "corr_session", f"edit/query model and molli disagree on {len(bad_s)} session(s), first: "
+                               + json.dumps(rep.extra["session_mismatch_cases"][:1])[:1500], any_found)
     if not ok:
         if not any_found:
             any_found = table_search(ctx, rep, tabs)
@@ -844,6 +1312,10 @@ def replay(ctx, data):
         obs, orders = observe_graph(ml, n, bonds, btypes=bt, queries=[q], cls=data.get("cls"))
         for sig, text in judge_query(n, bonds, orders, q, obs[0][1]):
             out.append(vlib.Violation(sig, f"atoms={n} bonds={bonds}: {text}"))
+    elif data.get("kind") == "session":
+        recs, viol, aborted = run_session(ml, data)
+        for sig, text, i in viol:
+            out.append(vlib.Violation(sig, f"step {i}: {text}"))
     elif data.get("kind") == "match-self":
         bt = data["btype"]
         g = ([(6, None, 0, 1), (6, None, 0, 1)], [(0, 1, bt, 0, None)])
